@@ -2,6 +2,8 @@
 //!
 //! One process = many runs; a run is a pure function of (simulator, seed) through one `Chooser`.
 
+#![allow(unused_assignments, dead_code)]
+
 mod codec;
 mod common;
 mod lockstep;
